@@ -4,7 +4,7 @@ import ast
 
 from .. import AnalysisError
 from ..dot import edges_of
-from ..flow import Flow
+from ..flow import Flow, Tracked
 from ..report import Report
 from ..util import where, norm, call_name, arg
 from ..variants import V
@@ -157,7 +157,7 @@ class Machine:
         return out
 
 
-class _Exec(Flow):
+class _Exec(Tracked):
     """abstract execution of one function: state = (fsm state, transitioning, prior, pending continuations)"""
 
     def __init__(self, machine, func):
@@ -182,7 +182,7 @@ class _Exec(Flow):
             q = self.f.parent.qname + '.<locals>.<callback>'
         return f'{q}:{norm(node)}'
 
-    def on_test(self, e, st):
+    def t_test(self, e, st):
         state, trans, prior, pend, dt = st
         if isinstance(e, ast.Attribute) and e.attr == '_FSM__doctest':
             # the doctest switch is a constant of the FSM instance: one value for the whole exploration
@@ -214,7 +214,7 @@ class _Exec(Flow):
                 return ((st,), ()) if v else ((), (st,))
         return (st,), (st,)
 
-    def on_stmt(self, s, st):
+    def t_stmt(self, s, st):
         state, trans, prior, pend, dt = st
         if isinstance(s, ast.Assign) and len(s.targets) == 1:
             t = s.targets[0]
@@ -237,16 +237,26 @@ class _Exec(Flow):
                     return (('starting', 'active', '?', (), dt),)
         return (st,)
 
-    def on_call(self, call, st):
+    def t_call(self, call, st):
         state, trans, prior, pend, dt = st
         f = call.func
         # dynamic trigger: getattr(self, self.__prior + '_trigger')()
         if isinstance(f, ast.Call) and isinstance(f.func, ast.Name) and f.func.id == 'getattr' and len(f.args) >= 2:
             name = f.args[1]
+            if isinstance(name, ast.Name):
+                # the trigger name held in a temporary: follow its single definition in this function
+                defs = [d.value for d in self.f.own_nodes() if isinstance(d, ast.Assign) and any(isinstance(t, ast.Name) and t.id == name.id for t in d.targets)]
+                if len(defs) == 1:
+                    name = defs[0]
+            if isinstance(name, ast.JoinedStr) and len(name.values) == 2 and isinstance(name.values[0], ast.FormattedValue) and isinstance(name.values[1], ast.Constant):
+                # f'{self.__prior}_trigger'
+                name = ast.BinOp(left=name.values[0].value, op=ast.Add(), right=name.values[1])
             if isinstance(name, ast.BinOp) and isinstance(name.right, ast.Constant) and name.right.value == '_trigger' and isinstance(name.left, ast.Attribute) and name.left.attr.endswith('__prior'):
                 if prior in ('?', None):
                     self.m.problem(self._site(call), where(self.f, call), 'the computed trigger <prior>_trigger is fired while no prior state was saved (save_prior_state did not run on the edge into archiving)')
                     return tuple(self.m.throw(st)) if self.m.raise_mode else (st,)
+                self.m.computed = getattr(self.m, 'computed', set())
+                self.m.computed.add(self._site(call))  # this site derives the trigger from the saved prior state
                 return tuple(self.m.fire(st, prior + '_trigger', self._site(call), where(self.f, call)))
             self.m.problem(self._site(call), where(self.f, call), f'computed trigger name {norm(name)} not understood')
             return (st,)
@@ -302,11 +312,11 @@ def guard_summary(machine, g):
     rets = []
 
     class G(_Exec):
-        def on_return(s, node, st):
+        def t_return(s, node, st):
             rets.append((node, st))
             return (st,)
 
-        def on_call(s, call, st):
+        def t_call(s, call, st):
             return (st,)
 
     if not any(isinstance(n, ast.Call) and (machine.prog.resolve_in(n.func, g) or '') == FSM + '.is_pipeline_active' for n in g.own_nodes()):
@@ -510,7 +520,7 @@ def rule234(ctx, rep, M):
             if state == 'archiving':
                 r1x.instance()
                 r1x.check(
-                    'getattr(' in site and '__prior' in site,
+                    site in getattr(M, 'computed', set()),
                     f'{site}:leaves-archiving',
                     wh,
                     'archiving is left through <saved prior>_trigger',
